@@ -20,8 +20,7 @@ import vlib
 
 MAX = 2 * 2 ** 20
 CORPUS = os.path.join(os.path.dirname(os.path.dirname(os.path.abspath(__file__))), 'corpus', 'C01')
-STALE_SIG = {'site': 'AbstractBlob.get_blob_writer.remove_writer',
-             'case': 'remove_writer of a finished writer unregistered a different, still pending writer of the same peer'}
+
 
 
 def sha(b):
@@ -277,10 +276,24 @@ class Monitor:
                 if want[1] != ['ok', tot] and prev is not None and (
                         o['store'] != prev['store'] or o['io'] != prev['io'] or o['writing'] != prev['writing']):
                     self.fail(f'op {i}: a write that did not complete a correct copy changed what is stored')
+        # ---- an in-range length is accepted when none was accepted before
+        if name == 'len' and prev is not None and prev['length'] is None and isinstance(op[1], int) \
+                and 0 <= op[1] <= MAX and o['length'] != op[1]:
+            self.fail(f'op {i}: set_length({op[1]}) within 0..2^21 was not accepted by a blob without length')
+        if name == 'len' and prev is None and isinstance(op[1], int) and 0 <= op[1] <= MAX and o['length'] != op[1]:
+            self.fail(f'op {i}: set_length({op[1]}) within 0..2^21 was not accepted by a blob without length')
         registered = {wid for _, wid in o['map']}
+        anyone_won = any(isinstance(f, list) for _, f in o['writers'])
         for j, (closed, f) in enumerate(o['writers']):
             if f == 'pending' and j not in registered:
+                if not self.orphan[j]:
+                    self.fail(f'op {i}: pending writer {j} is not registered in blob.writers (it would not be shut down)')
                 self.orphan[j] = True
+            # a healthy writer is shut down only by its own close, blob.close() or a winner
+            was = prev['writers'][j] if prev is not None and j < len(prev['writers']) else None
+            if was is not None and was[1] == 'pending' and f == 'cancelled' and not anyone_won \
+                    and not (name == 'closeblob' or (name in ('closew', 'write') and op[1] == j)):
+                self.fail(f'op {i}: writer {j} was cancelled by {name} although no writer delivered a correct copy')
             if f != 'pending' and self.done_at[j] is None:
                 self.done_at[j] = i
             if isinstance(f, list):
@@ -343,8 +356,8 @@ class Monitor:
                 self.fail(f'completion callback fired {o["completed"]} times after a complete correct copy')
             for j, (closed, f) in enumerate(o['writers'][:self.win_at]):
                 if not closed or f == 'pending':
-                    self.fail(f'writer {j} is still {"open" if not closed else "closed"}/{_short(f)} after another writer won',
-                              STALE_SIG if self.orphan[j] else None)
+                    self.fail(f'writer {j} is still {"open" if not closed else "closed"}/{_short(f)} after another writer won'
+                              + (' (it had been unregistered from blob.writers while pending)' if self.orphan[j] else ''))
         else:
             if o['verified'] or o['store'] is not None or o['completed']:
                 self.fail('no writer delivered a correct copy, yet something was stored / verified / announced')
@@ -596,8 +609,7 @@ def judge(run, model, case, trace, mon, label):
     if mon.fails:
         for what, sig in mon.fails:
             run.violation(case, what, signature=sig if sig else {'case': hashlib.sha1(vlib.canon(case).encode()).hexdigest()})
-        if any(sig != STALE_SIG for _, sig in mon.fails):
-            return
+        return
     impl = [[res, canon_obs(o)] for res, o in trace]
     mod = model_trace(model, case)
     if len(impl) != len(mod):
@@ -700,8 +712,7 @@ def main(run):
         run.count('cases:full-size')
         if mon.bad:
             run.violation(desc, mon.bad, signature=desc)
-    run.partial = ['C01_first_complete_copy_wins: "every other writer is closed" is proved for schedules in which a peer is '
-                   'not re-opened while the callbacks of its previous, finished writer are still queued']
+    run.partial = []
     run.supporting = {'oracle_calls': model.oracle_calls}
     model.close()
 
